@@ -28,6 +28,15 @@ class Var:
     def nodes(s): return 0
     def ops(s): return []
 
+class Acc(Var):
+    """accessor sub-object `Q[qi].get_num()` / `Q[qi].get_den()`: an mpz-typed leaf that is a field of mpq variable qi
+    (C reference: mpq_numref / mpq_denref of the pool variable).  Statements using it: tools/cxxacc.py"""
+    def __init__(s, qi, den): s.ty, s.i, s.qi, s.den = "z", None, qi, den
+    def cxx(s): return "Q[%d].get_%s()" % (s.qi, "den" if s.den else "num")
+    def cref(s): return "mpq_%sref(Qc[%d])" % ("den" if s.den else "num", s.qi)
+    def pre(s): return "q%s%d" % ("d" if s.den else "n", s.qi)
+    def vars(s): return {("q", s.qi)}
+
 SI_T = ["signed char", "short", "int", "long"]
 UI_T = ["unsigned char", "unsigned short", "unsigned", "unsigned long"]
 D_T = ["float", "double"]
@@ -167,6 +176,7 @@ class Stmt:
             if sym: return "ires = (%s %s %s);" % (s.a.cxx(), sym, s.b.cxx()), ("int",)
             return "ires = cmp(%s, %s); ires = (ires > 0) - (ires < 0);" % (s.a.cxx(), s.b.cxx()), ("int",)
         if s.kind == "sgn": return "ires = sgn(%s);" % s.a.cxx(), ("int",)
+        if s.kind in ("acc", "init2"): import cxxacc; return cxxacc.stmt_cxx(s)
         raise ValueError(s.kind)
     def pre(s):
         if s.kind == "assign": return "= %s %d %s" % (s.tgt[0], s.tgt[1], s.e.pre())
@@ -176,6 +186,7 @@ class Stmt:
         if s.kind == "cmp": return "cmp %s %s %s" % (s.op, s.a.pre(), s.b.pre())
         if s.kind == "sgn": return "sgn " + s.a.pre()
         if s.kind == "incr": return "incr %s %s %d" % (s.op, s.tgt[0], s.tgt[1])
+        if s.kind in ("acc", "init2"): import cxxacc; return cxxacc.stmt_pre(s)
         raise ValueError(s.kind)
 
 # ---------------------------------------------------------------- C reference code
@@ -200,7 +211,7 @@ class CRef:
         name = "T%s[%d]" % (ty.upper(), k)
         if ty == "f": s.code.append("mpf_set_prec(%s, %s);" % (name, prec or s.fprec))
         return name
-    def cvar(s, v): return "%sc[%d]" % (v.ty.upper(), v.i)
+    def cvar(s, v): return v.cref() if isinstance(v, Acc) else "%sc[%d]" % (v.ty.upper(), v.i)
     def conv(s, name, frm, to):
         if frm == to: return name
         t = s.tmp(to); s.code.append("%s(%s, %s);" % (SETCONV[(to, frm)], t, name)); return t
@@ -346,6 +357,7 @@ def cref_code(st, which="cref"):
         cr = CRef(getprec(st.a, None))
         n, ty = cr.ev(st.a); cr.code.append("ires = mp%s_sgn(%s);" % (ty, n))
         return cr.code, ("int",)
+    if st.kind in ("acc", "init2"): import cxxacc; return cxxacc.stmt_cref(st)
     raise ValueError(st.kind)
 
 # ---------------------------------------------------------------- values
@@ -591,7 +603,7 @@ def emit_program(cases):
 
 def op_line(st, vs):
     """the Lean driver op line for (statement, value set)"""
-    toks = ["cxx_evalf" if st.isf() else "cxx_eval", "s" + st.pre().encode().hex()]
+    toks = ["cxx_acc" if st.kind in ("acc", "init2") else "cxx_evalf" if st.isf() else "cxx_eval", "s" + st.pre().encode().hex()]
     toks += [hx(v) for v in vs.z]
     for n, d in vs.q: toks += [hx(n), hx(d)]
     if st.isf():
@@ -652,6 +664,7 @@ def fill(t, slots, it):
     """copy of tree t with Hole k replaced by Var(ty, slots[k]) (holes numbered in prefix order)"""
     if isinstance(t, Hole): return Var(t.ty, slots[next(it)])
     if isinstance(t, Bi): return Bi(t.ctype, t.lit)
+    if isinstance(t, Acc): return Acc(t.qi, t.den)
     if isinstance(t, Var): return Var(t.ty, t.i)
     if isinstance(t, Un): return Un(t.op, fill(t.a, slots, it))
     if isinstance(t, Sh): return Sh(t.op, fill(t.a, slots, it), Bi(t.n.ctype, t.n.lit))
@@ -921,6 +934,8 @@ def statements(rng, tier):
     add("sgn", a=Var("f", 0), tags=("mpf", "cmp")); add("sgn", a=Bin("sub", Var("f", 0), Var("f", 1)), tags=("mpf", "cmp"))
     for tty in ("z", "q", "f"):
         add("init", ty=tty, e=Bin("mul", Var("f", 0), Var("f", 1)), tags=("mpf", "init")); add("init", ty="f", e=Bin("add", Var(tty, 0), Var(tty, 1)), tags=("mpf", "init"))
+    # ---- accessor sub-objects Q[i].get_num() / Q[i].get_den() as leaves and as targets (tools/cxxacc.py)
+    import cxxacc; cxxacc.statements(rng, tier, add)
     return S
 
 # ---------------------------------------------------------------- conversions, constructors, get_str, stream I/O
@@ -1335,6 +1350,7 @@ def parse_corpus_line(line):
     def tree():
         t = tok()
         if re.fullmatch(r"[zqf]\d", t): return Var(t[0], int(t[1]))
+        if re.fullmatch(r"q[nd]\d", t): return Acc(int(t[2]), t[1] == "d")
         if t in ZUN + FUN: return Un(t, tree())
         if t in ZBIN or t == "hypot": a = opnd(); b = opnd(); return Bin(t, a, b)
         if t in ("shl", "shr"): a = tree(); n = bi(tok()); return Sh(t, a, n)
@@ -1347,6 +1363,7 @@ def parse_corpus_line(line):
     elif h == "sgn": st = Stmt("sgn", a=tree(), tags=("corpus",))
     elif h == "sh=": op = tok(); ty = tok(); i = int(tok()); st = Stmt("compoundsh", op=op, tgt=(ty, i), n=bi(tok()), tags=("corpus",))
     elif h == "incr": op = tok(); ty = tok(); i = int(tok()); st = Stmt("incr", op=op, tgt=(ty, i), tags=("corpus",))
+    elif h in ("acc", "new2"): import cxxacc; st = cxxacc.parse_corpus(h, tok, tree, opnd)
     else: raise ValueError("corpus syntax: " + h)
     if opt == "O2": st.tags.add("const")
     z = [hexv(t) for t in zs]; q = []
